@@ -211,7 +211,15 @@ func (g *gen) step() Step {
 		return Step{Op: op, Dst: dst, Src: []int{s}, Args: a}
 	}
 	al := m.AttributeLength()
-	switch g.r.Intn(30) {
+	switch g.r.Intn(34) {
+	case 30:
+		return un("Normalize", args("id", g.pickAttr(m, 3, 2)))
+	case 31:
+		return un("FlatNormals", args())
+	case 32:
+		return un("SmoothNormals", args())
+	case 33:
+		return un("Laplacian", args("id", g.pickAttr(m, 3, 1), "iters", 1+g.r.Intn(3)))
 	case 0, 1, 2, 3:
 		// Append: prefer a partner of the same topology
 		t := live[g.r.Intn(len(live))]
